@@ -9,6 +9,7 @@ Diag(k) == CASE k = "g0" -> FKMGoodman(<<3, 10>>, <<1, 10>>)
              [] k = "g3" -> FKMGoodman(<<1, 4>>, <<0, 1>>)
              [] k = "f0" -> FiveSegment(<<1, 2>>, <<3, 10>>, <<1, 5>>, <<1, 10>>, <<0, 1>>, <<1, 4>>, <<1, 2>>)
              [] k = "f1" -> FiveSegment(<<3, 10>>, <<1, 5>>, <<1, 10>>, <<1, 10>>, <<1, 10>>, <<1, 2>>, <<3, 4>>)
+             [] k = "f2" -> FiveSegment(<<3, 10>>, <<1, 5>>, <<1, 10>>, <<1, 10>>, <<1, 2>>, <<1, 4>>, <<1, 2>>)     \* steep compression segment: M4 = 1/2 > 1/3
 Goal(k) == CASE k = "ninf" -> NInf [] k = "m3" -> <<-3, 1>> [] k = "m1" -> <<-1, 1>> [] k = "mh" -> <<-1, 2>> [] k = "z" -> Zero
              [] k = "q" -> <<1, 4>> [] k = "h" -> <<1, 2>> [] k = "t" -> <<3, 4>> [] k = "two" -> <<2, 1>> [] k = "five" -> <<5, 1>>
 MeansMC == -6..6
